@@ -507,6 +507,10 @@ def gen_hmmer(rng):
     return [j, rid, cur, float(opt_e), float(opt_s), mode], what
 
 
+REFILTER_CLASS = "refilter_inclusive_limits"     # finding FC11b
+REFILTER_ORACLE = []      # reuse of hmmer results that does not give what a fresh run with the same limits gives
+
+
 def impl_hmmer(args):
     from antismash.common.hmmer import HmmerResults
     from antismash.detection import cluster_hmmer
@@ -527,6 +531,22 @@ def impl_hmmer(args):
                     res = res.refilter(opt_e, opt_s)
             if res is None:
                 return [0, 0]
+            if mode in (1, 2):
+                # independent oracle: what a FRESH run with these limits keeps (hmmer.build_hits drops
+                # `hsp.bitscore <= min_score or hsp.evalue >= max_evalue`), applied to the saved hits
+                fresh = [(h["score"], h["evalue"]) for h in data["hits"] if not (h["score"] <= opt_s or h["evalue"] >= opt_e)]
+                kept = [(h.score, h.evalue) for h in res.hits]
+                if kept != fresh:
+                    # class refilter_inclusive_limits: the only difference is that reuse keeps hits lying exactly on a limit
+                    on_limit = [(h["score"], h["evalue"]) for h in data["hits"]
+                                if (h["score"], h["evalue"]) not in fresh and h["score"] >= opt_s and h["evalue"] <= opt_e
+                                and (h["score"] == opt_s or h["evalue"] == opt_e)]
+                    expected_in_class = [(h["score"], h["evalue"]) for h in data["hits"]
+                                         if (h["score"], h["evalue"]) in fresh or (h["score"], h["evalue"]) in on_limit]
+                    REFILTER_ORACLE.append({"saved_hits_(score, evalue)": [(h["score"], h["evalue"]) for h in data["hits"]],
+                                            "max_evalue": opt_e, "min_score": opt_s, "kept_on_reuse": kept,
+                                            "kept_by_a_fresh_run": fresh,
+                                            "class": REFILTER_CLASS if on_limit and kept == expected_in_class else None})
             return out_ok(res.to_json())
         finally:
             HmmerResults.schema_version, cluster_hmmer.MAX_EVALUE, cluster_hmmer.MIN_SCORE = old
@@ -2435,6 +2455,20 @@ def run(chk):
                 chk.violation("counterexample", "hmmer results are reused under more lenient thresholds than they were "
                               "computed with", {"input": args, "theorem_or_correspondence": "C11_guards_hmmer_regen_inv"})
         add(4, args, out, what, bool(args[0].get("hits")))
+    if REFILTER_ORACLE:
+        listed = [f for f in common.load_known_findings("C11") if f.get("class") == REFILTER_CLASS and f.get("status") == "known"]
+        outside = [d for d in REFILTER_ORACLE if d["class"] != REFILTER_CLASS]
+        inside = [d for d in REFILTER_ORACLE if d["class"] == REFILTER_CLASS]
+        chk.count("HmmerResults:reuse_differs_from_fresh_run_only_in_hits_on_a_limit", len(inside))
+        if inside and listed:
+            chk.known(listed[0]["what_fails"])
+        bad = outside or ([] if listed else inside)
+        if bad:
+            worst = min(bad, key=lambda d: len(d["saved_hits_(score, evalue)"]))
+            chk.violation("counterexample", f"hmmer results narrowed on reuse differ from a fresh run with the same limits on "
+                          f"{len(bad)} case(s)" + ("" if outside else f" (class {REFILTER_CLASS}, not listed as known)"),
+                          {"theorem_or_correspondence": "C11_hmmer_refilter_as_fresh_run_partial / HmmerResults.refilter vs "
+                                                        "hmmer.build_hits", "input": worst})
 
     # fn 5
     for _ in range(n[5]):
